@@ -19,6 +19,7 @@ def optPair (j : Json) (k : String) : Except String (Option (Int × Int)) :=
 
 def parseLit (j : Json) : Except String Lit :=
   match j with
+  | .null => pure .none
   | .arr _ => do return .list (← ints j)
   | _ => do return .int (← j.getInt?)
 
@@ -91,6 +92,7 @@ def jOpt {α : Type} (f : α → Json) : Option α → Json
 def jPair (p : Int × Int) : Json := Json.arr #[toJson p.1, toJson p.2]
 
 def jVal : OVal → Json
+  | .none => Json.null
   | .int n => toJson n
   | .cell c l => Json.mkObj [("c", toJson c), ("v", jInts l)]
 
@@ -122,6 +124,7 @@ def jSnap (s : Snap) : Json := Json.mkObj [
 
 def pVal (j : Json) : Except String OVal :=
   match j with
+  | .null => pure .none
   | .obj _ => do return .cell (← getNat j "c") (← ints (← j.getObjVal? "v"))
   | _ => do return .int (← j.getInt?)
 
